@@ -97,6 +97,56 @@ func computeFactory(adds []E, dels []E) func(rs ds.ReadableSet[E]) ds.SetMutatio
 	}
 }
 
+// computeObserver, when set, receives a Compute whose report contradicts what its own factory saw.  Set for the schedules in
+// which every concurrent mutator takes applyMutex (Add / Delete / AddAll / DeleteAll / Apply / Compute / Replace): the
+// factory runs under the exclusive lock, so its reading of the set and the application of its answer are one atomic
+// step - Compute must report as deleted exactly the elements the factory saw and asked to delete, and as added exactly
+// the requested elements the factory saw absent.  (A Delete that takes effect between the factory's reading and the
+// application - seeded r6-2 - makes Compute report "removed nothing" for an element its factory saw.)
+var computeObserver atomic.Pointer[func(detail string)]
+
+// observedCompute is s.Compute with the usual factory (added = adds, deleted = the elements of dels the factory sees in the
+// set); `window`, if not nil, runs between the factory's reading and its answer.
+func observedCompute(s ds.Set[E], adds, dels []E, window func()) ds.SetMutations[E] {
+	dm := toMap(dels)
+	var seenDel, absentAdds []E
+	m := s.Compute(func(rs ds.ReadableSet[E]) ds.SetMutations[E] {
+		del := rs.Filter(func(e E) bool { return dm[e] })
+		seenDel = del.ToSlice()
+		seen := map[E]bool{}
+		for _, a := range adds {
+			if !seen[a] && !rs.Has(a) {
+				absentAdds = append(absentAdds, a)
+			}
+			seen[a] = true
+		}
+		if window != nil {
+			window()
+		}
+
+		return ds.NewSetMutations(adds...).WithDeletedElements(del)
+	})
+	if obs := computeObserver.Load(); obs != nil {
+		ra, rd := m.AddedElements().ToSlice(), m.DeletedElements().ToSlice()
+		if !sameSet(ra, absentAdds) || !sameSet(rd, seenDel) {
+			(*obs)(fmt.Sprintf("Compute(+%v, -current∩%v): the factory saw %v of the elements to delete in the set and %v of the elements to add absent, Compute reports +%v -%v",
+				adds, dels, seenDel, absentAdds, ra, rd))
+		}
+	}
+
+	return m
+}
+
+// observeComputes installs the observer for the duration of a schedule without non-applyMutex writers.
+func (w *world) observeComputes(schedule string) func() {
+	f := func(detail string) {
+		w.r.Fail("compute-atomic", detail, map[string]string{"api": "Set.Compute", "oracle": "compute-atomic", "schedule": schedule})
+	}
+	computeObserver.Store(&f)
+
+	return func() { computeObserver.Store(nil) }
+}
+
 // forced runs the schedule "bulk method holds applyMutex.RLock and is parked in the argument's ForEach until a
 // writer (Apply/Compute/Replace) is blocked in applyMutex.Lock; then the iteration continues".
 func (w *world) forced(bulk, writer string) string {
@@ -260,6 +310,7 @@ func (w *world) inside(bulk, pair string) string {
 		return "bad-op"
 	}
 	s := ds.NewSet(init...)
+	defer w.observeComputes("singles-inside-" + bulk)()
 	inWindow := make(chan struct{})
 	var bDone, observed atomic.Bool
 	gate := func() {
@@ -298,14 +349,8 @@ func (w *world) inside(bulk, pair string) string {
 			m = s.Apply(ds.NewSetMutations[E]().WithAddedElements(ds.NewSet(adds...)).WithDeletedElements(&gateSet{Set: ds.NewSet(dels...), gate: gate}))
 		default:
 			kind = "compute"
-			dm := toMap(dels)
-			m = s.Compute(func(rs ds.ReadableSet[E]) ds.SetMutations[E] {
-				// the factory's reading of the set, then the window, then its answer
-				del := rs.Filter(func(e E) bool { return dm[e] })
-				gate()
-
-				return ds.NewSetMutations(adds...).WithDeletedElements(del)
-			})
+			// the factory's reading of the set, then the window, then its answer
+			m = observedCompute(s, adds, dels, gate)
 		}
 		ret := seq.Add(1)
 		calls[0] = hcall{inv, ret, fmt.Sprintf("%s;%s;%s;%s;%s", kind, commaList(adds), commaList(dels), commaList(m.AddedElements().ToSlice()), commaList(m.DeletedElements().ToSlice()))}
@@ -556,7 +601,7 @@ func runCop(s ds.Set[E], c cop, api *serix.API) string {
 
 		return fmt.Sprintf("apply;%s;%s;%s;%s", commaList(c.a), commaList(c.d), commaList(m.AddedElements().ToSlice()), commaList(m.DeletedElements().ToSlice()))
 	case "compute":
-		m := s.Compute(computeFactory(c.a, c.d))
+		m := observedCompute(s, c.a, c.d, nil)
 
 		return fmt.Sprintf("compute;%s;%s;%s;%s", commaList(c.a), commaList(c.d), commaList(m.AddedElements().ToSlice()), commaList(m.DeletedElements().ToSlice()))
 	case "replace":
@@ -628,6 +673,10 @@ func (w *world) stress(kind string, threads, n int, seed uint64) string {
 		}
 	}
 	yields := rng.Chance(1, 2)
+	if kind != "all" {
+		// every mutator of these classes takes applyMutex: a Compute must report what its factory saw
+		defer w.observeComputes("stress-" + kind)()
+	}
 	var seq atomic.Int64
 	results := make([][]hcall, threads)
 	start := make(chan struct{})
@@ -1193,7 +1242,7 @@ func runConcurrent(r *hx.Run) {
 		}
 	}
 	for _, k := range []string{"addall", "delall", "applyadd", "applydel"} {
-		rounds := 40 * forcedN // a two-step test-and-write shows within 25 rounds; a round costs about 4 ms (more under -race)
+		rounds := 12 * forcedN // a two-step test-and-write shows within 25 rounds; a round costs 4 ms idle, 11 ms on a loaded machine
 		if rounds > 600 {
 			rounds = 600
 		}
